@@ -51,6 +51,7 @@ def as_slist(interp, src):
     if isinstance(src, SList):
         return src
     if isinstance(src, models.SIter):
+        # (an eager generator-by-contract is consumed completely here: fine)
         rest = slice_(interp, src.xs, slice(src.pos, None, None)) if not (isinstance(src.pos, int) and src.pos == 0) \
             else src.xs
         src.pos = wrap(src.xs.length)
@@ -227,7 +228,7 @@ def _grow(interp, xs, ys):
     snap = SList(xs.length, xs.elem, xs.uid)
     snap.cache = xs.cache
     snap.volatile = xs.volatile
-    snap.key = xs.key
+    snap.ident = xs.ident
     if isinstance(ys, SList) and ys is xs:
         ys = snap
     old_len = xs.length
@@ -282,7 +283,8 @@ def contains(interp, xs, x):
 def method(interp, xs, name, args, kwargs):
     from .mlist import MList
     from . import mlist
-    if isinstance(xs, MList) and name in ('append', 'insert', 'pop', 'extend', 'copy', 'clear'):
+    if isinstance(xs, MList) and (name in ('append', 'insert', 'pop', 'extend', 'copy', 'clear')
+                                  or (xs.is_deque and name in ('popleft', 'appendleft'))):
         return mlist.method(interp, xs, name, args, kwargs)
     if name in ('append', 'extend', 'insert') and not xs.immutable:
         return _mutate_copy_cell(interp, xs, name, args)
@@ -476,6 +478,44 @@ def _le_lex(a, b):
     return ta <= tb
 
 
+def _elem_patterns(interp, xs, k):
+    """scalar leaf terms of the element of xs at the (bound) index k that mention k: triggers for axioms that
+    are about `the element of xs at k`"""
+    st = interp.st
+    n_pc = len(st.pc)
+    st.no_fork += 1
+    st.solver.push()
+    st.side_conditions.append([])
+    leaves = []
+    try:
+        with st.scope(z3.And(0 <= k, k < xs.length)):
+            if st.check() != z3.unsat:
+                try:
+                    e = models.slist_elem(interp, xs, k)
+                except Exception:
+                    e = None
+
+                def walk(v):
+                    if isinstance(v, (tuple, list)):
+                        for x in v:
+                            walk(x)
+                    elif isinstance(v, (SInt, SBool, SStr)):
+                        leaves.append(v.t)
+
+                walk(e)
+    finally:
+        st.no_fork -= 1
+        st.solver.pop()
+        del st.pc[n_pc:]
+        st.side_conditions.pop()
+    out = []
+    for t in leaves:
+        if z3.is_app(t) and t.num_args() > 0 and not z3.is_and(t) and models._mentions(t, k) \
+                and t.decl().kind() == z3.Z3_OP_UNINTERPRETED:
+            out.append(t)
+    return out[:1]
+
+
 def sorted_(interp, xs):
     st = interp.st
     xs = as_slist(interp, xs)
@@ -493,8 +533,13 @@ def sorted_(interp, xs):
     out.perm_fn, out.inv_fn, out.source = perm, inv, xs
     k = st.fresh_int(uid + '.k')
     rng = z3.And(0 <= k, k < n)
-    st._add(z3.ForAll([k], z3.Implies(rng, z3.And(perm(k) >= 0, perm(k) < n, inv(perm(k)) == k,
-                                                    inv(k) >= 0, inv(k) < n, perm(inv(k)) == k))))
+    st._add(z3.ForAll([k], z3.Implies(rng, z3.And(perm(k) >= 0, perm(k) < n, inv(perm(k)) == k)),
+                      patterns=[perm(k)]))
+    # "every element of the source is somewhere in the result": to be instantiated whenever an element of the
+    # source at some index is talked about (the position inv(k) in the result is not a term the goal mentions)
+    src_patterns = [inv(k)] + _elem_patterns(interp, xs, k)
+    st._add(z3.ForAll([k], z3.Implies(rng, z3.And(inv(k) >= 0, inv(k) < n, perm(inv(k)) == k)),
+                      patterns=src_patterns))
     # order (element shapes: ints / tuples of ints / strings)
     j = st.fresh_int(uid + '.j')
     n_pc = len(st.pc)
